@@ -68,7 +68,7 @@ class Properties:
 
     def __call__(self, value):
         value = {
-            **{prop.name: NotPassed() for prop in self.props.values()},
+            **{prop.source: NotPassed() for prop in self.props.values()},
             **value,
         }
         return {
